@@ -15,11 +15,26 @@ type Case struct {
 	Init   uint64      `json:"init,omitempty"`
 	End    uint64      `json:"end,omitempty"`
 	Ranges [][2]uint64 `json:"ranges,omitempty"`
+	// the segmenter is derived from another one: "init" = NewSegmenter(size, From, end).WithInitialBlock(init),
+	// "end" = NewSegmenter(size, init, From).WithExclusiveEndBlock(end); "" = NewSegmenter(size, init, end)
+	Derive string `json:"derive,omitempty"`
+	From   uint64 `json:"from,omitempty"`
 }
 
 func evalSeg(c Case) (*core.Fail, bool) {
 	size, init, end := c.Size, c.Init, c.End
 	s := block.NewSegmenter(size, init, end)
+	switch c.Derive {
+	case "init":
+		s = block.NewSegmenter(size, c.From, end).WithInitialBlock(init)
+	case "end":
+		s = block.NewSegmenter(size, init, c.From).WithExclusiveEndBlock(end)
+	}
+	if c.Derive != "" {
+		if s.InitialBlock() != init || s.ExclusiveEndBlock() != end {
+			return core.Failf("seg:derived-bounds", "size=%d init=%d end=%d derived by %s from %d: bounds [%d,%d)", size, init, end, c.Derive, c.From, s.InitialBlock(), s.ExclusiveEndBlock()), false
+		}
+	}
 	first, last := s.FirstIndex(), s.LastIndex()
 	// reference: the segment containing block b is b/size, clipped to [init,end)
 	refRange := func(idx int) (uint64, uint64, bool) {
@@ -268,6 +283,23 @@ func Run(ctx *core.Ctx) int {
 			for init := uint64(0); init <= maxInit; init++ {
 				for end := init + 1; end <= maxEnd; end++ {
 					counts["seg"]++
+					// the same segmenter derived from another one (the orchestrator derives every stage and module
+					// segmenter this way): from a neighbouring initial block, the segment's boundaries, one segment away
+					base := init / size * size
+					for _, from := range []uint64{init - 1, init + 1, base, base + size - 1, init + size, 0} {
+						if from != init && from < end && from <= maxInit+size {
+							if !emit(Case{Kind: "seg", Size: size, Init: init, End: end, Derive: "init", From: from}) {
+								return
+							}
+						}
+					}
+					for _, from := range []uint64{end - 1, end + 1, end + size} {
+						if from > init {
+							if !emit(Case{Kind: "seg", Size: size, Init: init, End: end, Derive: "end", From: from}) {
+								return
+							}
+						}
+					}
 					if !emit(Case{Kind: "seg", Size: size, Init: init, End: end}) {
 						return
 					}
@@ -312,7 +344,7 @@ func Run(ctx *core.Ctx) int {
 	ctx.Cov["distinct_nontrivial"] = st.NonTrivial
 	ctx.Cov["exhaustive"] = true
 	ctx.Cov["by_kind"] = counts
-	ctx.Cov["rule"] = fmt.Sprintf("every (size 1..%d, initial 0..%d, end initial+1..%d) with every index first-2..last+2 and every block 0..end+2; Range.Split for all 0<=a<b<=64 x chunk 1..%d; Ranges.Merged for every sorted disjoint list over 0..%d and every list of <=%d ranges over 0..%d; MergedBuckets over 0..8 x max {1,2,3,4,7}. Non-trivial: >=2 segments/chunks with an unaligned end, or >=3 ranges with an adjacent pair. Cases are distinct by construction of the enumeration.", maxSize, maxInit, maxEnd, maxSize, listMaxA, listLenB, listMaxB)
+	ctx.Cov["rule"] = fmt.Sprintf("every (size 1..%d, initial 0..%d, end initial+1..%d) with every index first-2..last+2 and every block 0..end+2, built directly and derived through WithInitialBlock / WithExclusiveEndBlock from a neighbouring bound, the segment boundaries and one segment away; Range.Split for all 0<=a<b<=64 x chunk 1..%d; Ranges.Merged for every sorted disjoint list over 0..%d and every list of <=%d ranges over 0..%d; MergedBuckets over 0..8 x max {1,2,3,4,7}. Non-trivial: >=2 segments/chunks with an unaligned end, or >=3 ranges with an adjacent pair. Cases are distinct by construction of the enumeration.", maxSize, maxInit, maxEnd, maxSize, listMaxA, listLenB, listMaxB)
 	ctx.Assume = []string{"reference is the set-cover definition of tiling written in the harness", "uint64 arithmetic far from overflow (blocks < 200)"}
 	return ctx.Finish(core.JSONRecheck(ctx.Prop, Eval))
 }
